@@ -71,6 +71,8 @@ type C10Doc struct {
 	QB    bool         `json:"qb,string"`
 	QN    json.Number  `json:"qn,string"`
 	PQN   *json.Number `json:"pqn,string"`
+	QS    string       `json:"qs,string"`
+	PQS   *string      `json:"pqs,string"`
 }
 
 const (
